@@ -103,7 +103,8 @@ def parse_lockstep(args):
                 res[name] = ("ok", cps(el.to_er7()), rep, kinds)
             except Exception as ex:
                 res[name] = (exc_name(ex), [], [], [])
-        out.append({"what": "parse:" + api, "conc": v, "out_s": res["s"][0], "out_t": res["t"][0], "enc_s": res["s"][1],
+        out.append({"what": "parse:" + api, "conc": v, "leafdt": str(extra) if api == "leaf" else "", "leaflen": len(text) if api == "leaf" else 0,
+                    "out_s": res["s"][0], "out_t": res["t"][0], "enc_s": res["s"][1],
                     "enc_t": res["t"][1], "rep_s": res["s"][2], "rep_t": res["t"][2], "kinds_s": res["s"][3], "step": 0,
                     "detail": [text[:200], str(extra)]})
     return out
@@ -150,6 +151,11 @@ def texts_for(v, rnd, quick):
         if dt in T.lib(v).BASE_DATATYPES:
             for t in pool:
                 items.append(("leaf", t, dt))
+    # the lengths HL7 gives the textual datatypes: at the maximum, one above, and well above
+    for dt, mx in (("ST", 199), ("IS", 20), ("FT", 65536), ("TX", 65536)):
+        if dt in T.lib(v).BASE_DATATYPES:
+            for n in (mx, mx + 1, mx + 5, mx + 12):
+                items.append(("leaf", "x" * n, dt))
     for fname, text in (("PID_3", "1^2^3^A&B&C^MR"), ("PID_3", "1^2^3^A&B&C&D&E^MR^x^y^z^1^2^3^4"), ("PID_5", "D^J"), ("PID_8", "F^x")):
         items.append(("field", text, fname))
     for cname, text in (("CX_4", "A&B&C"), ("CX_4", "A&B&C&D"), ("CX_1", "a&b")):
@@ -299,6 +305,9 @@ def run(ctx):
     events = list(uniq.values())
     for i, e in enumerate(events):
         e["id"] = i + 1
+    for e in events:
+        e.setdefault("leafdt", "")
+        e.setdefault("leaflen", 0)
     send = [{k: e[k] for k in e if k not in ("detail", "what", "conc", "step")} for e in events]
     failed, trivial = judge(ctx, "StrictnessTrace", "StrictnessTrace.cfg", send)
     byid = {e["id"]: e for e in events}
